@@ -183,7 +183,7 @@ func (n *gnode) startReal() {
 	}
 	time.Sleep(off)
 	wait()
-	n.disk.OnRead = func([]byte) error { n.seamInsideInitiateRound(); return nil }
+	n.disk.OnRead = func([]byte) error { n.seamInsideInitiateRound(); n.seamInsideVoteValidation(); return nil }
 	n.svc.VerifTrackerStart()
 	time.Sleep(3 * time.Millisecond)
 	wait()
@@ -402,6 +402,50 @@ func (n *gnode) seamInsideInitiateRound() {
 	s.inSeam = false
 	s.k.Fault("vote-handled-inside-initiate-round")
 	s.k.Event("deliver-inside-initiate-round", "n%d<-%d err=%v", n.id, w.from, err != nil)
+}
+
+// seamInsideVoteValidation: the mirror image of the seam above. While a network handler validates a
+// vote it reads the block state; if it holds no lock of the service at that point (the round lock in
+// particular), the node's own goroutines may get their turn there - virtual time passes, timers fire,
+// the round may end and the next one begin - before the handler goes on. With the round lock held
+// (as validateVoteMessage holds it) nothing can run in between and the seam stays shut.
+func (n *gnode) seamInsideVoteValidation() {
+	s := n.s
+	if !s.real || s.inSeam || !n.running {
+		return
+	}
+	var pcs [24]uintptr
+	cnt := runtime.Callers(3, pcs[:])
+	frames := runtime.CallersFrames(pcs[:cnt])
+	inValidation, stateFrame := false, ""
+	for {
+		f, more := frames.Next()
+		if strings.Contains(f.Function, "/dot/state.") {
+			stateFrame = f.Function
+			if !strings.HasSuffix(stateFrame, ").HasHeader") {
+				return // every other block state function on the way holds the block state's lock
+			}
+		}
+		if strings.HasSuffix(f.Function, "grandpa.(*Service).validateVoteMessage") {
+			inValidation = true
+			break
+		}
+		if strings.HasSuffix(f.Function, "grandpa.(*Service).initiateRound") || !more {
+			break
+		}
+	}
+	if !inValidation || stateFrame == "" || !n.svc.VerifRoundLockFree() {
+		return
+	}
+	if !s.k.Bool(1, 3, "time-passes-inside-vote-validation") {
+		return
+	}
+	d := []time.Duration{500, 1000, 2000, 4000}[s.k.Choose(4, "seam-time")] * time.Millisecond
+	s.inSeam = true
+	time.Sleep(d)
+	s.inSeam = false
+	s.k.Fault("time-passed-inside-vote-validation")
+	s.k.Event("time-inside-validation", "n%d +%v", n.id, d)
 }
 
 // checkTalliesReal: what a node counts is made of votes of its current round, and a voter that signed
